@@ -80,10 +80,16 @@ pub fn parse(name: &str) -> Sp {
             let (s, tf) = rgb(param.unwrap_or("Srgb")).unwrap();
             Sp { k, std: Some(s), tf, wp: rf::white(s.white), cone: rf::UNIT }
         }
-        K::Luma => {
-            let s = rf::standard("Srgb");
-            Sp { k, std: Some(s), tf: if base == "LinLuma" { Tf::Linear } else { Tf::Srgb }, wp: rf::D65, cone: rf::UNIT }
-        }
+        K::Luma => match (base, param) {
+            // LinLuma<Wp>: linear luma relative to a white point
+            ("LinLuma", p) => Sp { k, std: Some(rf::standard("Srgb")), tf: Tf::Linear, wp: white(p), cone: rf::UNIT },
+            // Luma<Standard>: the standard's transfer function and white point
+            (_, Some(p)) => {
+                let (s, tf) = rgb(p).unwrap();
+                Sp { k, std: Some(s), tf, wp: rf::white(s.white), cone: rf::UNIT }
+            }
+            _ => Sp { k, std: Some(rf::standard("Srgb")), tf: Tf::Srgb, wp: rf::D65, cone: rf::UNIT },
+        },
         K::Lms => Sp { k, std: None, tf: Tf::Linear, wp: rf::D65, cone: if param == Some("Bradford") { rf::BRADFORD } else { rf::VON_KRIES } },
         _ => Sp { k, std: None, tf: Tf::Linear, wp: white(param), cone: rf::UNIT },
     }
